@@ -44,7 +44,9 @@ REP = [("A", 0x41), ("V", 0x56), ("T", 0x54), ("a", 0x61), ("o", 0x6F), ("period
        # glyphs of the Arabic script without a strong bidi class (ET / ON): kerned among themselves they are still right-to-left
        ("percent-ar", 0x66A), ("perthousand-ar", 0x609), ("poeticverse-ar", 0x60E),
        # characters whose only script is Inherited (Zinh, no script extensions): common for kerning, on either side of a pair
-       ("lowlinecomb", 0x332), ("zwj", 0x200D)]
+       ("lowlinecomb", 0x332), ("zwj", 0x200D),
+       # weak bidi classes ES / ET (plus, percent, dollar; hyphen above is ES too): neither left-to-right nor right-to-left
+       ("plus", 0x2B), ("percent", 0x25), ("dollar", 0x24)]
 MULTI_LTR = ["A", "V", "T", "a-cy", "be-cy", "ge-cy", "te-cy", "alpha", "Gamma", "Tau", "period", "comma", "hyphen"]
 VALUES = [Fr(-50), Fr(-51, 2), Fr(10), Fr(0), Fr(29, 4), Fr(-3), Fr(12), Fr(-75), Fr(5, 2)]
 
@@ -62,7 +64,7 @@ def gen(rng):
         n = rng.randint(9, 13)
     elif fam < 0.7:    # RTL heavy
         pool = [r for r in REP if r[0] in ("alef-ar", "beh-ar", "one-ar", "alef-hb", "bet-hb", "period", "hyphen", "one", "A", "acutecomb",
-                                            "percent-ar", "perthousand-ar", "poeticverse-ar", "lowlinecomb", "zwj")]
+                                            "percent-ar", "perthousand-ar", "poeticverse-ar", "lowlinecomb", "zwj", "plus", "percent", "dollar")]
     else:
         pool = list(REP)
     items = rng.sample(pool, min(n, len(pool)))
@@ -76,6 +78,11 @@ def gen(rng):
                 if extra not in names:
                     items.append(next(r for r in REP if r[0] == extra)); names.append(extra)
             forced = [((rtl[0], "lowlinecomb"), Fr(-30)), (("zwj", rtl[-1]), Fr(-20))]
+            # ... and against glyphs of the weak bidi classes ES / ET, on either side
+            for extra in ("hyphen", "percent", "plus"):
+                if extra not in names:
+                    items.append(next(r for r in REP if r[0] == extra)); names.append(extra)
+            forced += [((rtl[0], "hyphen"), Fr(-40)), (("percent", rtl[-1]), Fr(-25)), ((rtl[-1], "plus"), Fr(15))]
     groups = {}
     for side in ("1", "2"):
         avail = list(names)
@@ -174,6 +181,25 @@ def g_obs(obs):
                   for tag, script, rtl, entries in obs], "obs_entry")
 
 
+def bidi_sets(desc):
+    """which glyphs are strongly right-to-left (bidi class R, AL) and which count as left-to-right for kerning (L, AN, EN) --
+    stated from the Unicode data of the glyphs' code points (and the one GSUB rule the generator writes), independently of
+    the writer's own classification"""
+    from fontTools import unicodedata as ud
+    R, L = set(), set()
+    for g in desc["glyphs"]:
+        for u in g["unicodes"][:1]:
+            b = ud.bidirectional(chr(u))
+            if b in ("R", "AL"):
+                R.add(g["name"])
+            elif b in ("L", "AN", "EN"):
+                L.add(g["name"])
+    names = {g["name"] for g in desc["glyphs"]}
+    if "sub A by A.alt" in desc.get("features", "") and "A.alt" in names and "A" in L:
+        L.add("A.alt")
+    return R, L
+
+
 def g_in(desc, spy, names):
     scripts = []
     for g in names:
@@ -182,7 +208,7 @@ def g_in(desc, spy, names):
             scripts.append((g, []))
         else:
             scripts.append((g, sorted(s)))
-    R, L = sorted(spy["bidi"].get("R", ())), sorted(spy["bidi"].get("L", ()))
+    R, L = (sorted(x) for x in bidi_sets(desc))
     part = set()
     for (s1, s2) in desc["kerning"]:
         for sd in (s1, s2):
@@ -198,7 +224,7 @@ def g_in(desc, spy, names):
 
 
 def f10_explains(desc, spy, a, b):
-    R, L = spy["bidi"].get("R", set()), spy["bidi"].get("L", set())
+    R, L = bidi_sets(desc)
     for (s1, s2) in desc["kerning"]:
         m1 = desc["groups"].get(s1, [s1])
         m2 = desc["groups"].get(s2, [s2])
